@@ -822,6 +822,7 @@ impl Hist {
             (p, self.model.blocks[&p].time, self.model.blocks[&p].height)
         };
         let mut out = vec![];
+        let first_parent = parent;
         for _ in 0..n {
             self.uniq += 1;
             let cb = gen::coinbase_tx(height + 1, self.uniq, vec![(1, self.uni.addrs[0].script.clone())]);
@@ -840,6 +841,25 @@ impl Hist {
             out.push(header);
             parent = hash;
             height += 1;
+        }
+        // a block source repeats the headers it announced before: half of the lists start with
+        // the (already announced) ancestors of the new headers, which the canister must skip
+        // without dropping what follows
+        if self.rng.chance(1, 2) {
+            let mut pre: Vec<Vec<u8>> = vec![];
+            let mut cur = first_parent;
+            while let Some(x) = self.hidden.iter().find(|x| x.hash == cur) {
+                pre.push(x.header.clone());
+                cur = x.parent;
+                if pre.len() >= 4 {
+                    break;
+                }
+            }
+            if !pre.is_empty() {
+                pre.reverse();
+                pre.extend(out);
+                out = pre;
+            }
         }
         out
     }
